@@ -5,11 +5,13 @@
 
    Nothing of a member's inside is driven or logged step by step here; the log holds what an observer of the cluster
    sees, in virtual-time order:
-     {"ev":"Reset","sid":..,"n":N,"inst":Inst,"byz":[..],"timer":"eager"|"inc","timely":b}
+     {"ev":"Reset","sid":..,"n":N,"inst":Inst,"rot":k,"byz":[..],"timer":"eager"|"inc","timely":b}
+        (members are logged as (i - k) mod N, k = (slot + duty type) mod N: the leader rotation REQUIRED of the component then is
+         Leader(r) = r mod N, Inst = 0, for every slot and duty type, and all rotations share one set of constants)
      {"ev":"Start","p":p,"now":t}                       Participate / Propose called on member p
      {"ev":"Propose","p":p,"v":v,"now":t}               Propose(duty, value v) called on p
      {"ev":"Send","p":p,"m":msg,"now":t}                a distinct wire message of honest p enters the network
-     {"ev":"Round","p":p,"from":r,"to":r2,"rule":..}    p's qbft core changed round (LogRoundChange, as logged by the component)
+     {"ev":"Round","p":p,"old":r,"new":r2,"rule":..}    p's qbft core changed round (LogRoundChange, as logged by the component)
      {"ev":"Unjust","p":p,"type":..,"src":s}            p's qbft core dropped a message of s as unjustified (LogUnjust)
      {"ev":"Reject","from":s,"err":..,"kind":k}         Consensus.handle of a live honest member refused a wire message of s
      {"ev":"Decide","p":p,"v":v,"round":r,"now":t}      p's Subscribe callback fired with value v (round from the component)
@@ -63,10 +65,10 @@ CSend == /\ IsEvent("Send") /\ Ev.p \in Honest /\ ~ended /\ AtTime
 \* changeRound as logged by the component (a crashed member's last words are ignored)
 CRound == /\ IsEvent("Round") /\ Ev.p \in Honest /\ AtTime
           /\ IF st[Ev.p].running
-               THEN /\ st[Ev.p].round = Ev.from /\ Ev.to # Ev.from
-                    /\ (Ev.rule = "round_timeout" => Ev.to = Ev.from + 1)
-                    /\ st' = [st EXCEPT ![Ev.p].round = Ev.to]
-                    /\ rmax' = [rmax EXCEPT ![Ev.p] = IF Ev.to > @ THEN Ev.to ELSE @]
+               THEN /\ st[Ev.p].round = Ev.old /\ Ev.new # Ev.old
+                    /\ (Ev.rule = "round_timeout" => Ev.new = Ev.old + 1)
+                    /\ st' = [st EXCEPT ![Ev.p].round = Ev.new]
+                    /\ rmax' = [rmax EXCEPT ![Ev.p] = IF Ev.new > @ THEN Ev.new ELSE @]
                ELSE Same(<<st, rmax>>)
           /\ Same(<<msgs, out, unjust, r0, ended, rejected, runerr, leftover, dtime>>)
 CUnjust == /\ IsEvent("Unjust") /\ Ev.p \in Honest /\ AtTime
